@@ -39,6 +39,7 @@ def build_image(d):
         for p in d["particles"]:
             planted.render_at(d["blobs"], vol, np.asarray(p["pos"], dtype=np.float64), rots[p["k"] % len(rots)], out=img)
     img += d["noise"] * gen.noise(d["seed"], vol).astype(np.float64)
+    img += float(d.get("baseline", 0.0))  # raw data sit on a large offset (e.g. counts around 5000 with a contrast of 1)
     dt = d["dtype"]
     if dt == "float32":
         return img.astype(np.float32)
@@ -272,9 +273,50 @@ def cases(draw, pickers=("LoG", "DoG", "ZNCC")):
     return {"picker": picker, "scale": scale, "vol": vol, "chunks": chunks, "particles": parts, "sigma_px": sigma_px,
             "tshape": tshape, "blobs": blobs, "rots": rots, "min_dist_px": min_dist, "depth": depth, "psigma": psigma,
             "tmpl_as": draw(st.sampled_from(["array", "array", "provider"])), "warm": draw(st.booleans()),
+            "baseline": draw(st.sampled_from([0.0, 0.0, 100.0, 5000.0])),
             "dtype": draw(st.sampled_from(["float32", "float32", "float64", "int16", "uint8"])),
             # (normalised template-matching scores of two identical noise-free particles tie exactly: keep some noise there)
             "noise": draw(st.sampled_from([0.01, 0.03] if (pairmode and picker == "ZNCC") else [0.0, 0.01, 0.03])), "seed": draw(gen.seeds)}
+
+
+def judge_many_rotations(d):
+    """a searched rotation set with more than 256 members (indices beyond 8 bits): 300 rotations about z in 1.2 degree steps"""
+    from acryo.pick import ZNCCTemplateMatcher
+
+    out = []
+    K, step = 300, 1.2
+    ang = np.radians(np.arange(K) * step)
+    rots = Rotation.from_rotvec(np.stack([ang, np.zeros(K), np.zeros(K)], axis=1))
+    tshape = (13, 13, 13)
+    tmpl = planted.render_template(d["blobs"], tshape)
+    vol = (30, 44, 74)
+    img = np.zeros(vol, dtype=np.float64)
+    sites = [np.array([15.0, 22.0, 20.0]), np.array([14.0, 21.0, 53.0])]
+    ks = [k % K for k in d["ks"][:2]]
+    for p, k in zip(sites, ks):
+        planted.render_at(d["blobs"], vol, p, rots[k], out=img)
+    img += 0.01 * gen.noise(d["seed"], vol).astype(np.float64)
+    with warnings.catch_warnings():
+        warnings.simplefilter("ignore")
+        mole = ZNCCTemplateMatcher(tmpl, rotation=rots, order=1).pick_molecules(img.astype(np.float32), 1.0, min_distance=4.0, min_score=0.5)
+    pos = mole.pos.astype(np.float64)
+    for p, k in zip(sites, ks):
+        dist = np.sqrt(((pos - p) ** 2).sum(1)) if len(pos) else np.zeros(0)
+        if not len(dist) or dist.min() > 1.0:
+            out.append(viol("C20/missed:many-rotations", f"K=300: particle at {p.tolist()} (rotation #{k}) has no pick within 1 px"))
+            continue
+        j = int(np.argmin(dist))
+        ang = math.degrees(planted.angle(Rotation.from_quat(mole.quaternion()[j]), rots[k]))
+        if not ang <= 4.0:
+            out.append(viol("C20/rotation:many-rotations", f"K=300 rotations about z in {step} degree steps: particle planted with searched rotation #{k} "
+                            f"({k * step:.1f} deg) is reported {ang:.1f} deg away"))
+    return out
+
+
+@st.composite
+def many_rotation_cases(draw):
+    blobs = draw(planted.blob_offsets(5.5, nblob=(3, 4), sigma=(0.9, 1.1), rmin=3.0))
+    return {"blobs": blobs, "ks": [draw(st.sampled_from([256, 257, 283, 299, 270])), draw(st.integers(0, 299))], "seed": draw(gen.seeds)}
 
 
 def nontrivial(d):
@@ -297,6 +339,7 @@ def labels(d):
     labs |= {f"placement:{p['cls']}" for p in d["particles"]}
     if any(p.get("grid") for p in d["particles"]):
         labs.add("on-grid")
+    labs.add(f"baseline:{d.get('baseline', 0.0):g}")
     if any(min(c) < d["depth"] for c in d["chunks"]):
         labs.add("chunk<depth")
     if any(v < d["depth"] for v in d["vol"]):
@@ -311,6 +354,9 @@ def engines():
     return [
         Engine("blob-pickers", judge, strategy=cases(("LoG", "DoG")), nontrivial=nontrivial, labels=labels,
                cases={"quick": 40, "thorough": 1500}, shards={"quick": 8, "thorough": 16}, shrink={"quick": False, "thorough": True}),
+        Engine("many-rotations", judge_many_rotations, strategy=many_rotation_cases(), nontrivial=lambda d: any(k % 300 >= 256 for k in d["ks"][:2]),
+               labels=lambda d: ["K:300"] + [f"k>=256:{k % 300 >= 256}" for k in d["ks"][:2]],
+               cases={"quick": 4, "thorough": 48}, shards={"quick": 4, "thorough": 12}, shrink={"quick": False, "thorough": False}),
         Engine("template-matcher", judge, strategy=cases(("ZNCC",)), nontrivial=nontrivial, labels=labels,
                cases={"quick": 24, "thorough": 800}, shards={"quick": 8, "thorough": 16}, shrink={"quick": False, "thorough": True}),
     ]
